@@ -52,6 +52,10 @@ func run(spec Scenario) outcome {
 		t.pin = true
 		pinTasks = append(pinTasks, t)
 	}
+	var warmTasks []*task
+	for _, ps := range spec.Warmup {
+		warmTasks = append(warmTasks, sc.newTask(ps.Task))
+	}
 	prodTasks := make([][]*task, len(spec.Producers))
 	for p, pushes := range spec.Producers {
 		for _, ps := range pushes {
@@ -123,73 +127,109 @@ func run(spec Scenario) outcome {
 	}
 	ctxLive := func() bool { return !sc.cancelled.Load() && spec.Cancel.Kind != "deadline" }
 
-	// ---- phase 0: pin workers with gated tasks ------------------------------------------------
-	for i, lane := range spec.Pins {
-		t := pinTasks[i]
-		sc.spawn(func() { sc.push(t, lane) })
-	}
-	if len(spec.Pins) > 0 {
+	ptr := func(o outcome) *outcome { return &o }
+	load := func() *outcome {
+		// ---- phase -1: warm-up history (pushed and drained before any worker is pinned) -------------
+		if len(warmTasks) > 0 {
+			sc.spawn(func() {
+				for i, ps := range spec.Warmup {
+					sc.push(warmTasks[i], ps.Lane)
+				}
+			})
+			r := sc.waitRest(nil)
+			out.snapshots += r.snapshots
+			if !r.ok {
+				return ptr(bail("watchdog during the warm-up: " + describe(append(r.lane, r.har...))))
+			}
+			sc.diedCheck(r, ctxLive())
+			sc.atRestChecks(&out, "warm", ctxLive())
+		}
+		// ---- phase 0: pin workers with gated tasks ------------------------------------------------
+		for i, lane := range spec.Pins {
+			t := pinTasks[i]
+			sc.spawn(func() { sc.push(t, lane) })
+		}
+		if len(spec.Pins) > 0 {
+			r := sc.waitRest(nil)
+			out.snapshots += r.snapshots
+			if !r.ok {
+				return ptr(bail("watchdog while pinning workers: " + describe(append(r.lane, r.har...))))
+			}
+		}
+
+		// ---- phase 1: producers ----------------------------------------------------------------------
+		for p := range spec.Producers {
+			p := p
+			sc.spawn(func() {
+				for i, ps := range spec.Producers[p] {
+					if c := spec.Cancel; c.Kind == "producer" && c.Producer == p && c.After == i {
+						sc.doCancel(fmt.Sprintf("producer%d@%d", p, i))
+					}
+					sc.push(prodTasks[p][i], ps.Lane)
+				}
+			})
+		}
 		r := sc.waitRest(nil)
 		out.snapshots += r.snapshots
 		if !r.ok {
-			return bail("watchdog while pinning workers: " + describe(append(r.lane, r.har...)))
+			return ptr(bail("watchdog in phase 1: " + describe(append(r.lane, r.har...))))
 		}
-	}
+		out.restState = append(out.restState, "loaded:"+laneState(r))
+		sc.diedCheck(r, ctxLive())
+		sc.atRestChecks(&out, "loaded", ctxLive())
 
-	// ---- phase 1: producers ----------------------------------------------------------------------
-	for p := range spec.Producers {
-		p := p
-		sc.spawn(func() {
-			for i, ps := range spec.Producers[p] {
-				if c := spec.Cancel; c.Kind == "producer" && c.Producer == p && c.After == i {
-					sc.doCancel(fmt.Sprintf("producer%d@%d", p, i))
+		// ---- phase 2: external cancel in the loaded state ----------------------------------------------
+		if spec.Cancel.Kind == "external" {
+			sc.doCancel("external@" + laneState(r))
+		}
+
+		// ---- phase 3: release the gates, let everything drain --------------------------------------------
+		close(sc.gate)
+		r = sc.waitRest(nil)
+		out.snapshots += r.snapshots
+		if !r.ok {
+			return ptr(bail("watchdog after releasing the gates: " + describe(append(r.lane, r.har...))))
+		}
+		out.restState = append(out.restState, "drained:"+laneState(r))
+		live := ctxLive()
+		sc.diedCheck(r, live)
+		sc.atRestChecks(&out, "drained", live)
+		if live {
+			// bounded-progress form of "eventually": context live, every running task returned,
+			// system at rest => every accepted task has been started (exactly once), and all
+			// producers have returned
+			for _, t := range sc.tasks {
+				if t.rc.Load() == rcNil && t.enters.Load() != 1 {
+					sc.violate("C06", "accepted-not-started", "with the context live and all running tasks returned, every accepted task is started once the lane is at rest",
+						fmt.Sprintf("task %d (%s, lane %d) was accepted but started %d times; lane: %s", t.id, t.spec.Kind, t.lane.Load(), t.enters.Load(), describe(r.lane)))
+					break
 				}
-				sc.push(prodTasks[p][i], ps.Lane)
 			}
-		})
-	}
-	r := sc.waitRest(nil)
-	out.snapshots += r.snapshots
-	if !r.ok {
-		return bail("watchdog in phase 1: " + describe(append(r.lane, r.har...)))
-	}
-	out.restState = append(out.restState, "loaded:"+laneState(r))
-	sc.diedCheck(r, ctxLive())
-	sc.atRestChecks(&out, "loaded", ctxLive())
-
-	// ---- phase 2: external cancel in the loaded state ----------------------------------------------
-	if spec.Cancel.Kind == "external" {
-		sc.doCancel("external@" + laneState(r))
-	}
-
-	// ---- phase 3: release the gates, let everything drain --------------------------------------------
-	close(sc.gate)
-	r = sc.waitRest(nil)
-	out.snapshots += r.snapshots
-	if !r.ok {
-		return bail("watchdog after releasing the gates: " + describe(append(r.lane, r.har...)))
-	}
-	out.restState = append(out.restState, "drained:"+laneState(r))
-	live := ctxLive()
-	sc.diedCheck(r, live)
-	sc.atRestChecks(&out, "drained", live)
-	if live {
-		// bounded-progress form of "eventually": context live, every running task returned,
-		// system at rest => every accepted task has been started (exactly once), and all
-		// producers have returned
-		for _, t := range sc.tasks {
-			if t.rc.Load() == rcNil && t.enters.Load() != 1 {
-				sc.violate("C06", "accepted-not-started", "with the context live and all running tasks returned, every accepted task is started once the lane is at rest",
-					fmt.Sprintf("task %d (%s, lane %d) was accepted but started %d times; lane: %s", t.id, t.spec.Kind, t.lane.Load(), t.enters.Load(), describe(r.lane)))
+			for _, g := range r.har {
+				sc.violate("C06", "producer-stuck", "producers return once the lane has drained", "at rest with "+describe([]G{g}))
 				break
 			}
+			// C14: panics affected nothing but themselves
+			sc.panicChecks(&out)
 		}
-		for _, g := range r.har {
-			sc.violate("C06", "producer-stuck", "producers return once the lane has drained", "at rest with "+describe([]G{g}))
-			break
+
+		return nil
+	}
+	if spec.Rush {
+		// no settling at all: push, cancel and Wait immediately after New (the lane's goroutines
+		// may not even have run yet)
+		for p := range spec.Producers {
+			p := p
+			sc.spawn(func() {
+				for i, ps := range spec.Producers[p] {
+					sc.push(prodTasks[p][i], ps.Lane)
+				}
+			})
 		}
-		// C14: panics affected nothing but themselves
-		sc.panicChecks(&out)
+		sc.doCancel("rush")
+		close(sc.gate)
+	} else if o := load(); o != nil {
+		return *o
 	}
 
 	// ---- phase 4: cancel, pushes after cancel, Wait --------------------------------------------------------
@@ -216,7 +256,7 @@ func run(spec Scenario) outcome {
 		sc.waitRet.Store(sc.stamp())
 		sc.waitDone.Store(true)
 	})
-	r = sc.waitRest(func() bool { return sc.waitDone.Load() && sc.live.Load() == 0 })
+	r := sc.waitRest(func() bool { return sc.waitDone.Load() && sc.live.Load() == 0 })
 	out.snapshots += r.snapshots
 	if !r.until {
 		if r.ok {
